@@ -100,7 +100,7 @@ func c09Spell(r *rand.Rand, d string) string {
 
 func (m c09) Run(ctx *core.Ctx) {
 	r := ctx.Rng
-	n := split(tierN(ctx.Tier, 400_000, 30_000_000), ctx.Shard, ctx.NShards)
+	n := split(tierN(ctx.Tier, 1_500_000, 30_000_000), ctx.Shard, ctx.NShards)
 	for i := int64(0); i < n; i++ {
 		if r.IntN(25) == 0 {
 			d := gen.Pick(r, []string{"localhost", "LOCALHOST", "LocalHost", "lOCALHOSt"})
